@@ -9,6 +9,7 @@ package main
 
 import (
 	"fmt"
+	"go/token"
 	"go/types"
 	"sort"
 
@@ -27,7 +28,8 @@ type SimAnchors struct {
 	Helpers                                                         []*ssa.Function
 	ReportFn                                                        *ssa.Function
 	Push, Pop, QLen                                                 *ssa.Function
-	QField                                                          string // warrior field holding *queue
+	Pops                                                            []*ssa.Function // every queue method that removes and returns the oldest task (Pop and what it is built on)
+	QField                                                          string          // warrior field holding *queue
 	StateField                                                      string
 	IndexField                                                      string
 	Spawn, RunCycle, Run, Reset                                     *ssa.Function
@@ -106,6 +108,7 @@ func Anchors(w *World) *SimAnchors {
 	defer func() {
 		w.MarkBoundary("simulator anchor", a.Ctor, a.ReadFold, a.WriteFold, a.Exec, a.ReportFn, a.Push, a.Pop, a.QLen, a.Spawn, a.RunCycle, a.Run, a.Reset)
 		w.MarkBoundary("opcode helper of the executor", a.Helpers...)
+		w.MarkBoundary("queue pop primitive", a.Pops...)
 	}()
 	fail := func(f string, args ...any) { a.Err = append(a.Err, fmt.Sprintf(f, args...)) }
 	sims := implementers(w, "Simulator")
@@ -306,6 +309,31 @@ func Anchors(w *World) *SimAnchors {
 				if push != nil && pop != nil {
 					a.QueueT, a.QField, a.Push, a.Pop = nt, f.Name(), push, pop
 					a.QLen = w.Method(nt.Obj().Name(), "Len")
+					// the removing primitive(s): queue methods returning (Address, _) that decrement a field
+					for _, fn := range w.Funcs {
+						s := fn.Signature
+						if fn.Pkg != w.SLib || s.Recv() == nil || s.Results().Len() != 2 || typeName(s.Results().At(0).Type()) != "Address" {
+							continue
+						}
+						if rp, ok := s.Recv().Type().(*types.Pointer); !ok || !types.Identical(rp.Elem(), nt) {
+							continue
+						}
+						if decrementsField(fn, map[*ssa.Function]bool{}) {
+							a.Pops = append(a.Pops, fn)
+						}
+					}
+					// the innermost one is the primitive the queue rules analyse
+					for _, fn := range a.Pops {
+						inner := true
+						for _, g := range a.Pops {
+							if g != fn && callsStatically(fn, g) {
+								inner = false
+							}
+						}
+						if inner {
+							a.Pop = fn
+						}
+					}
 				}
 			}
 		}
@@ -389,4 +417,42 @@ func flatFields(st *types.Struct) []*types.Var {
 		out = append(out, f)
 	}
 	return out
+}
+
+// decrementsField: fn (or a same-package function it calls) stores x - 1 into a struct field.
+func decrementsField(fn *ssa.Function, seen map[*ssa.Function]bool) bool {
+	if seen[fn] {
+		return false
+	}
+	seen[fn] = true
+	for _, b := range fn.Blocks {
+		for _, in := range b.Instrs {
+			switch in := in.(type) {
+			case *ssa.Store:
+				if _, ok := in.Addr.(*ssa.FieldAddr); ok {
+					if bo, ok := in.Val.(*ssa.BinOp); ok && bo.Op == token.SUB {
+						if c, ok := bo.Y.(*ssa.Const); ok && c.Value != nil && c.Int64() == 1 {
+							return true
+						}
+					}
+				}
+			case *ssa.Call:
+				if cal := in.Call.StaticCallee(); cal != nil && cal.Pkg == fn.Pkg && decrementsField(cal, seen) {
+					return true
+				}
+			}
+		}
+	}
+	return false
+}
+
+func callsStatically(f, g *ssa.Function) bool {
+	for _, b := range f.Blocks {
+		for _, in := range b.Instrs {
+			if c, ok := in.(*ssa.Call); ok && c.Call.StaticCallee() == g {
+				return true
+			}
+		}
+	}
+	return false
 }
